@@ -75,10 +75,24 @@ def handleSec (j : Json) : Except String Json := do
       ("probes", Json.arr (probes.map (probe s)))])
   pure (Json.arr out)
 
+def secName (s : String) : SecName :=
+  match s with
+  | "Version" => .version | "Well" => .well | "Curves" => .curves | "Parameter" => .parameter | _ => .other
+
+def jfields (f : Fields) : Json := Json.arr #[jstr f.name, jstr f.unit, jstr f.value, jstr f.descr]
+
+def handleHl (j : Json) : Except String Json := do
+  let sec ← (← j.getObjVal? "sec").getStr?
+  let line ← getS (← j.getObjVal? "line")
+  match parseHeaderLine (secName sec) line with
+  | some f => pure (jfields f)
+  | none => pure Json.null
+
 def handle (j : Json) : Except String Json := do
   let op ← (← j.getObjVal? "op").getStr?
   match op with
   | "sec" => handleSec j
+  | "hl" => handleHl j
   | "ping" => pure (Json.str "pong")
   | _ => throw s!"unknown op {op}"
 
